@@ -68,6 +68,15 @@ def base_schema(rnd, mode):
                             ("notification", "nt", [leaf("nx")])])
     aug_body = [leaf("ax"), lst("al"), ("container", "ac", opt([True, False]), [leaf("ay")])]
     a = mod("a", "a", imports=[("b", "b")], augments=[("/b:top", aug_body)])
+    # ordered-by on the lists and leaf-lists (the model does not have it: it is compared between the implementation's
+    # runs with and without the deviating modules)
+    for m_, names in ((b, ["l", "ll", "gl", "gll", "rl", "yl"]), (a, ["al"])):
+        ob = {}
+        for nm in names:
+            v = None if mode == 0 else ("user" if mode == 1 else rnd.choice([None, "user", "user", "system"]))
+            if v:
+                ob[nm] = v
+        m_["ordered_by"] = ob
     T = []
 
     def t(steps, kind, src, pfx=None):
@@ -597,6 +606,16 @@ def add_revision(text, rev):
     return "\n".join(lines[:i] + ["  revision %s;" % rev] + lines[i:])
 
 
+def add_ordered_by(text, ob):
+    """ordered-by statements for the lists and leaf-lists named in [ob] (name -> user|system); schema_gen's node
+    tuples have no such field, so the rendered text is post-processed"""
+    import re
+    for name, val in ob.items():
+        text = re.sub(r"(?m)^(\s*)list %s \{\n" % re.escape(name), lambda m: "%slist %s {\n%s  ordered-by %s;\n" % (m.group(1), name, m.group(1), val), text)
+        text = re.sub(r"leaf-list %s \{ " % re.escape(name), "leaf-list %s { ordered-by %s; " % (name, val), text)
+    return text
+
+
 def go_line(mods, opts, lay=None):
     """process line for the implementation.  A module dict may carry its YANG text ("text"), a revision date
     ("revision") and a file name ("file"); the texts of modules with deviations get the layout [lay]"""
@@ -605,6 +624,8 @@ def go_line(mods, opts, lay=None):
         text = m["text"] if "text" in m else render_module_layout(m, random.Random(lay * 1009 + i) if lay is not None else None)
         if m.get("revision"):
             text = add_revision(text, m["revision"])
+        if m.get("ordered_by"):
+            text = add_ordered_by(text, m["ordered_by"])
         toks += [sg.hx(m.get("file", m["name"] + ".yang")), sg.hx(text)]
     return " ".join(toks)
 
@@ -699,7 +720,7 @@ def node_expect(n):
 
 
 EMPTY_IO = lambda name: dict(name=name, kind="Input" if name == "input" else "Output", config="unset", mandatory="unset",
-                             hasdir=True)
+                             hasdir=True, _synthetic=True)
 
 
 class Oracle:
@@ -936,10 +957,24 @@ def check_cases(res, cases, report=3):
                 continue
             # everything the deviates do not name stays
             b = s["node"]
-            for k in ("name", "kind", "key", "ns", "hasdir", "prefix", "src", "instmod"):
-                if b.get(k) != n.get(k) and "kind" in b and k in b:
-                    viol("target %s/%s changed its %s: %r -> %r" % (mn, "/".join(steps), k, b.get(k), n.get(k)), c)
+            if b.get("_synthetic"):
+                continue
+            # the properties a deviate can name are predicted by the reference above (config, mandatory, default, units,
+            # type, min:max) and two dumped fields follow from them (ro, defvals); every other dumped field of the target
+            # -- name, kind, key, namespace, ordered-by (the tail of `list`), description, extras, source ... -- must be
+            # what it is without the deviating modules
+            named = ("config", "mandatory", "default", "units", "type", "ro", "defvals", "list")
+            ob, on = own(b), own(n)
+            for k in sorted(set(ob) | set(on)):
+                if k in named:
+                    continue
+                if ob.get(k) != on.get(k):
+                    viol("target %s/%s changed its %s, which no deviate names: %r -> %r" % (mn, "/".join(steps), k, ob.get(k), on.get(k)), c)
                     break
+            else:
+                tb, tn = (b.get("list") or "").split(":")[2:], (n.get("list") or "").split(":")[2:]
+                if tb != tn:
+                    viol("target %s/%s changed its ordered-by, which no deviate names: %r -> %r" % (mn, "/".join(steps), tb, tn), c)
     return stats, nviol
 
 
@@ -1030,7 +1065,9 @@ def run(res, tier, seed, proof):
              "defaults (implementation + reference only); a family with the deviating module in 2-3 revisions, all loaded in "
              "every order, compared with base + most recent revision alone; deviation paths whose first prefix the deviating module does not know; "
              "one module set processed repeatedly with IgnoreDeviateNotSupported flipped in between (harness/go c08flip), each run "
-             "compared with a fresh set under the options in force.  Each case: model-vs-implementation, frame against the run without the deviating modules, "
+             "compared with a fresh set under the options in force; lists and leaf-lists with ordered-by user/system (every dumped "
+             "field of a target that no deviate can name, ordered-by included, is compared with the run without the "
+             "deviating modules).  Each case: model-vs-implementation, frame against the run without the deviating modules, "
              "extracted reference applied to the undeviated dump",
         exhaustive=False, mismatches=nviol,
         distribution=dict(hist, groups=groups, **stats),
